@@ -433,6 +433,90 @@ func runC16(w *W) {
 		w.Begin(idx, in, fmt.Sprintf("script:%d", cnt))
 		c16Script(w, r, sc, in)
 	}
+
+	// scripts that contain a syntax error before the cancellation point: the context's error must keep its identity
+	// (errors.Is) and the statements must still be a prefix of what the uncancelled parse returns
+	nb := w.pickN(600, 20000)
+	broken := []string{"SELECT (2", "SELEC 1", "SELECT 1 FROM", "CREATE TABLE", "SELECT a b c d", "INSERT INTO", "SELECT ) ", "SELECT 1 +", "ALTER TABLE t ADD", "RENAME", "SELECT [1, 2"}
+	for k := 0; k < nb; k++ {
+		idx, mine := w.Case()
+		if !mine {
+			continue
+		}
+		r := NewRng(w.Seed, uint64(idx), 161)
+		cnt := 2 + r.Intn(6)
+		var parts []string
+		at := r.Intn(cnt)
+		for i := 0; i < cnt; i++ {
+			if i == at {
+				parts = append(parts, pick(r, broken))
+			} else {
+				pc := pp.pickPiece(r, 60)
+				t := pc.Text
+				if pc.NeedNL {
+					t += "\n"
+				}
+				parts = append(parts, t)
+			}
+		}
+		text := strings.Join(parts, ";")
+		in := []byte(text)
+		w.Begin(idx, in, "broken-script")
+		w.Eval(in, true)
+		inq := fmt.Sprintf("%q", text)
+		base := safeParseReader(context.Background(), &cancelReader{data: in, cancelAt: -1}, 1<<22)
+		if base.Panicked || base.Budget {
+			continue
+		}
+		baseEx, bad := explainAll(base)
+		if bad != "" {
+			continue
+		}
+		for x := 0; x <= len(in); x++ {
+			if len(in) > 400 && x%7 != 0 {
+				continue
+			}
+			ctx, cancel := context.WithCancel(context.Background())
+			obs := safeParseReader(ctx, &cancelReader{data: in, cancelAt: x, cancel: cancel}, 1<<22)
+			cancel()
+			if obs.Panicked || obs.Budget {
+				continue
+			}
+			ex, bad := explainAll(obs)
+			if bad != "" {
+				continue
+			}
+			fail := ""
+			switch {
+			case obs.Err == nil && base.Err != nil:
+				fail = "nil error although the uncancelled parse reports " + base.Err.Error()
+			case obs.Err == nil:
+				if len(ex) != len(baseEx) {
+					fail = fmt.Sprintf("nil error with %d statements, the uncancelled parse returns %d", len(ex), len(baseEx))
+				}
+			case errors.Is(obs.Err, context.Canceled):
+				if len(ex) > len(baseEx) {
+					fail = fmt.Sprintf("%d statements with the context error, uncancelled parse returns %d", len(ex), len(baseEx))
+				}
+				for i := range ex {
+					if fail == "" && ex[i] != baseEx[i] {
+						fail = fmt.Sprintf("statement %d returned with the context error is not statement %d of the uncancelled result", i, i)
+					}
+				}
+			case base.Err != nil && obs.Err != nil && obs.Err.Error() == base.Err.Error():
+				if len(ex) != len(baseEx) {
+					fail = "same error as the uncancelled parse but a different number of statements"
+				}
+			default:
+				fail = fmt.Sprintf("error %q is neither the context's error (errors.Is) nor the uncancelled parse's error %q", errString(obs.Err), errString(base.Err))
+			}
+			if fail != "" {
+				w.Report(Finding{Kind: "cancel", Key: "cancel@b-after-syntax-error", Input: inq, InputHex: hexs(in), Detail: fmt.Sprintf("cancel when byte offset %d is requested: %s", x, fail)})
+				break
+			}
+			w.Count("broken-script-cancellations")
+		}
+	}
 }
 
 func c16Script(w *W, r *Rng, sc script, in []byte) {
